@@ -57,6 +57,6 @@ for p in ('C09', 'C13', 'C14'):
 PROBES = [
     {'id': 'D2', 'properties': ['C08'], 'scen': 'probe_d2', 'workers': 2, 'one': '1/77:1:8000:0', 'reps': 2},
     {'id': 'D2io', 'properties': ['C18'], 'scen': 'probe_d2io', 'workers': 2, 'one': '1/201:1:8000:0', 'reps': 3},
-    {'id': 'D13', 'properties': ['C09', 'C12'], 'scen': 'probe_d13', 'workers': 2, 'one': '1/', 'reps': 2},
+    {'id': 'D13', 'properties': ['C09', 'C12'], 'scen': 'probe_d13', 'workers': 2, 'one': '1/', 'reps': 5},
     {'id': 'D14', 'properties': ['C17'], 'scen': 'probe_d14', 'workers': 4, 'one': '1/205:0:3000:0', 'reps': 6, 'lane': 'asan'},
 ]
